@@ -4,7 +4,7 @@
   Obligations are listed in harness/props/c35.py.
 -/
 import NiftyVerif.Lemmas.Response
-import NiftyVerif.Lemmas.ResponseLos4
+import NiftyVerif.Lemmas.ResponseLos5
 import NiftyVerif.Lemmas.Nft
 import NiftyVerif.Lemmas.LinOps
 import NiftyVerif.Props.C02
@@ -223,6 +223,28 @@ theorem los_clip_inside (shape : List ℕ) (s dir : List ℚ) (hlt : (clipT shap
     ∀ a ∈ boxAxes shape s dir, 0 ≤ a.2.1 + t * a.2.2 ∧ a.2.1 + t * a.2.2 ≤ (a.1 : ℚ) :=
   clipT_inside shape s dir hlt t h1 h2
 
+/-- the code's clipping (`d0/d1`, `np.minimum/np.maximum`, the `direction == 0` sentinel `±5·10¹¹`, `max(0,·)`, `min(1,·)`,
+    `max(dmin, dmax)`) computes exactly the parameter interval of the independent `clipBox` — every dimension and shape with
+    positive axis lengths, every start/end -/
+theorem los_clip_eq_clipBox (shape : List ℕ) (s e : List ℚ) (hn : ∀ n ∈ shape, 0 < n) :
+    clipBox shape s e =
+      if (clipT shape s (dirOf s e)).1 < (clipT shape s (dirOf s e)).2 then some (clipT shape s (dirOf s e)) else none :=
+  clipBox_eq_clipT shape s e hn
+
+/-- **`eps = 0`, against `losRow`**: for a generic line that starts inside the grid the transcription of `_comp_traverse`
+    emits exactly the `(pixel, Δt)` list of the independent exact traversal model (the one `los_weights_sum` is about) -/
+theorem los_traverse_refines_losRow (shape : List ℕ) (s e : List ℚ)
+    (hl1 : shape.length = s.length) (hl2 : s.length = e.length) (hn : ∀ n ∈ shape, 0 < n)
+    (hne : (clipT shape s (dirOf s e)).1 < (clipT shape s (dirOf s e)).2)
+    (hgen : ∀ se ∈ s.zip e, se.2 - se.1 ≠ 0 → ¬ Cross se.1 (se.2 - se.1) (clipT shape s (dirOf s e)).1)
+    (hnd : ((events shape s (dirOf s e) (clipT shape s (dirOf s e)).1 (clipT shape s (dirOf s e)).2).map Prod.fst).Nodup) :
+    ResponseLos.traverse 0 shape s e = (losRow shape s e).map fun p => ((p.1 : ℤ), p.2) := by
+  have hc := clipBox_eq_clipT shape s e hn
+  rw [if_pos hne] at hc
+  rw [los_traverse_refines_zero shape s e hl1 hl2 hne hgen hnd]
+  unfold losRow
+  rw [hc]
+
 -- non-vacuity: a 2-D line from inside pixel (0,0) to pixel (2,1) of a 3×2 grid meets every hypothesis of the refinement theorem
 -- (`List.mergeSort` is defined by well-founded recursion and does not reduce in the kernel, so the two sides are not evaluated
 --  here; the driver evaluates both on every generated line and the harness compares them — `los-refine-compared` in the evidence)
@@ -232,6 +254,7 @@ example : ResponseLos.traverse 0 [3, 2] [3/4, 3/4] [13/4, 2] =
   los_traverse_refines_zero [3, 2] [3/4, 3/4] [13/4, 2] rfl rfl (by decide +kernel)
     (genEntryB_spec _ _ _ (by decide +kernel)) (by decide +kernel)
 example : clipT [3, 2] [3/4, 3/4] (dirOf [3/4, 3/4] [13/4, 2]) = (0, 9/10) := by decide +kernel
+example : clipBox [3, 2] [3/4, 3/4] [13/4, 2] = some (0, 9/10) := by decide +kernel
 example : (events [3, 2] [3/4, 3/4] (dirOf [3/4, 3/4] [13/4, 2]) 0 (9/10)).map Prod.fst = [1/10, 1/2, 1/5] := by decide +kernel
 -- the point excluded by the `eps = 0` hypothesis `hgen`: a line entering through the low face (entry point ON a grid plane); there
 -- the code without its 1e-7 would emit a zero-length first segment and shift every later pixel by one row (driver output for
